@@ -1,6 +1,6 @@
 (** * Entry points the generic OCaml driver dispatches on. Model only, no proofs. *)
 From Coq Require Import List NArith ZArith Bool Floats.
-From HC Require Import Extract.Tok Extract.Run2 Extract.Query2 Extract.Oracle2 Extract.Sew2Oracle.
+From HC Require Import Extract.Tok Extract.Run2 Extract.Query2 Extract.Oracle2 Extract.Sew2Oracle Extract.KernOracle.
 Import ListNotations.
 Open Scope N_scope.
 Definition entry (which : N) (ts : list tok) : list (list tok) :=
@@ -11,5 +11,7 @@ Definition entry (which : N) (ts : list tok) : list (list tok) :=
   | 4 => oracle_err_noop ts
   | 5 => oracle_alloc ts
   | 6 => oracle_sew2 ts
+  | 7 => oracle_insert ts
+  | 8 => oracle_tri ts
   | _ => [[TZ (-2)]]
   end.
